@@ -98,6 +98,119 @@ def _strip_file(view: dict[str, Any]) -> dict[str, Any]:
     return v
 
 
+# --------------------------------------------------------------------------- life edits (settings changed after creation)
+
+EDIT_KINDS = ("cache-tol", "cache-name", "in-optional", "in-required", "in-default", "out-optional", "use")
+
+
+def _float_default_names(disc) -> list[str]:
+    out = []
+    for n, v in disc.io.input_grammar.defaults.items():
+        if isinstance(v, np.ndarray) and v.dtype.kind == "f" and v.size:
+            out.append(n)
+    return sorted(out)
+
+
+def apply_edits(disc, edits, pre_inputs) -> list[tuple[str, str, Any]]:
+    """Change settings of a living discipline through its public API (the property: "pickled at any moment of
+    their life").  Deterministic in (discipline, edits): the twin of a file-cache case gets the same edits.
+    Returns what took effect: (kind, name, value set) - the independent expectation for the restored object."""
+    from fractions import Fraction as Fr
+
+    done: list[tuple[str, str, Any]] = []
+    gin, gout = disc.io.input_grammar, disc.io.output_grammar
+    for e in edits or ():
+        kind, arg = e[0], (e[1] if len(e) > 1 else 0)
+        try:
+            if kind == "cache-tol" and disc.cache is not None:
+                disc.cache.tolerance = float(Fr(str(arg)))
+                done.append((kind, "", float(Fr(str(arg)))))
+            elif kind == "cache-name" and disc.cache is not None:
+                disc.cache.name = str(arg)
+                done.append((kind, "", str(arg)))
+            elif kind == "in-optional":
+                names = sorted(n for n in gin.required_names if n in gin.defaults)
+                if names:
+                    n = names[int(arg) % len(names)]
+                    gin.required_names.remove(n)
+                    done.append((kind, n, False))
+            elif kind == "in-required":
+                names = sorted(n for n in gin.names if n not in gin.required_names)
+                if names:
+                    n = names[int(arg) % len(names)]
+                    gin.required_names.add(n)
+                    done.append((kind, n, True))
+            elif kind == "in-default":
+                names = _float_default_names(disc)
+                if names:
+                    n = names[int(arg) % len(names)]
+                    new = np.array(gin.defaults[n], dtype=float) * 1.25 + 0.5
+                    gin.defaults[n] = new
+                    done.append((kind, n, new.copy()))
+            elif kind == "out-optional":
+                names = sorted(gout.required_names)
+                if names:
+                    n = names[int(arg) % len(names)]
+                    gout.required_names.discard(n)
+                    done.append((kind, n, False))
+            elif kind == "use":
+                x = dict(pre_inputs[int(arg) % len(pre_inputs)]) if pre_inputs else {}
+                st, _ = _call(disc.execute, x)
+                done.append((kind, st, None))
+        except Exception as ex:  # noqa: BLE001  (an edit the class refuses is not part of the case)
+            done.append(("refused:" + kind, type(ex).__name__, None))
+    return done
+
+
+def check_edits_carried(out: Outcome, copy, done) -> None:
+    """Positive, independent of the original's getters: the restored object shows the values that were *set*."""
+    gin, gout = copy.io.input_grammar, copy.io.output_grammar
+    last: dict[tuple[str, str], Any] = {}
+    for kind, n, v in done:
+        if kind in ("in-optional", "in-required"):
+            last[("in-req", n)] = v
+        elif kind in ("cache-tol", "cache-name", "in-default", "out-optional"):
+            last[(kind, n)] = v
+    for (kind, n), v in last.items():
+        ok, got = True, None
+        if kind == "cache-tol":
+            got = getattr(copy.cache, "tolerance", None)
+            ok = isinstance(got, float) and got == v
+        elif kind == "cache-name":
+            got = getattr(copy.cache, "name", None)
+            ok = got == v
+        elif kind == "in-req":
+            got = n in gin.required_names
+            ok = (n in gin.names) and got is v
+        elif kind == "out-optional":
+            got = n in gout.required_names
+            ok = (n in gout.names) and got is False
+        elif kind == "in-default":
+            got = gin.defaults.get(n)
+            ok = isinstance(got, np.ndarray) and got.shape == v.shape and bool((got == v).all())
+        if not ok:
+            out.fail("setting-not-carried", f"{kind} {n!r} was set to {v!r} before pickling, the restored object has {got!r}")
+
+
+def near_inputs(disc, done, seen_inputs) -> list[dict[str, Any]]:
+    """Inputs within the cache tolerance of inputs already executed (a tolerance-based cache hit) and inputs
+    that omit a name made optional (the default is used)."""
+    xs = []
+    tol = next((v for k, _, v in reversed(done) if k == "cache-tol"), None)
+    if tol:
+        for x in seen_inputs[-2:]:
+            names = sorted(n for n, v in x.items() if isinstance(v, np.ndarray) and v.dtype.kind == "f" and v.size)
+            if names:
+                y = {k: (v.copy() if isinstance(v, np.ndarray) else v) for k, v in x.items()}
+                y[names[0]].flat[0] += tol / 4.0
+                xs.append(y)
+    for k, n, _ in done:
+        if k == "in-optional" and seen_inputs:
+            y = {a: b for a, b in seen_inputs[-1].items() if a != n}
+            xs.append(y)
+    return xs
+
+
 # --------------------------------------------------------------------------- discipline cases
 
 
@@ -161,14 +274,28 @@ def run_discipline_case(case: dict[str, Any], tmp: Path) -> Outcome:
     if case.get("observer"):
         obs = H.ResourceObserver() if case["observer"] == "resource" else H.PlainObserver()
         disc.execution_status.add_observer(obs)
+    # settings changed after creation / after use, through the public API
+    done = apply_edits(disc, case.get("edits"), pre_inputs)
+    out.info["edits_done"] = [k for k, _, _ in done]
+    seen_inputs = list(pre_inputs) if moment != "fresh" or any(k == "use" for k, _, _ in done) else []
 
     # ---- (a) serialize + restore
-    view0 = OBS.discipline_view(disc)
+    # (a *blind* case serializes before the harness observes anything: an observation - reading `schema`,
+    #  iterating a cache - may refresh what the object built lazily and hide a stale member from the state)
+    blind = bool(case.get("blind"))
+    out.info["blind"] = blind
+    view0 = None if blind else OBS.discipline_view(disc)
     try:
         copy = OBS.roundtrip(disc, case.get("serializer", "pickle"), tmp, f"p{_COUNTER[0]}")
     except Exception as e:  # noqa: BLE001
         out.fail("serialize-raises", f"{type(e).__name__}: {str(e)[:200]}")
         return out
+    if blind:
+        try:
+            view0 = OBS.discipline_view(disc)
+        except Exception as e:  # noqa: BLE001
+            out.fail("original-broken", f"viewing the original after serialization raises {type(e).__name__}: {e}")
+            return out
     # ---- (c) original unaltered
     try:
         view0b = OBS.discipline_view(disc)
@@ -188,9 +315,13 @@ def run_discipline_case(case: dict[str, Any], tmp: Path) -> Outcome:
     if d:
         kind = "view-differs:" + d[0].split(":")[0].strip("/").split("/")[0]
         out.fail(kind, "restored object differs from the original: " + "; ".join(d[:3]))
+    check_edits_carried(out, copy, done)
     # grammar validation verdicts
     for gname in ("input_grammar", "output_grammar"):
         g0, g1 = getattr(disc.io, gname), getattr(copy.io, gname)
+        s0, s1 = OBS.schema_view(g0), OBS.schema_view(g1)
+        if s0 != s1:
+            out.fail(f"view-differs:{gname}", f"{gname}.schema: " + "; ".join(OBS.diff_views(s0, s1)[:3]))
         for data in OBS.grammar_probe_data(g0, rng):
             a, b = OBS.validate_outcome(g0, data), OBS.validate_outcome(g1, data)
             if a != b:
@@ -217,6 +348,7 @@ def run_discipline_case(case: dict[str, Any], tmp: Path) -> Outcome:
                     ref.execute(dict(x))
             if moment == "linearized":
                 ref.linearize(dict(pre_inputs[-1]), compute_all_jacobians=True)
+            apply_edits(ref, case.get("edits"), pre_inputs)
         except Exception as e:  # noqa: BLE001
             out.status = "skipped"
             out.detail = f"twin cannot be built: {type(e).__name__}: {e}"
@@ -232,9 +364,14 @@ def run_discipline_case(case: dict[str, Any], tmp: Path) -> Outcome:
     post_inputs = [gen_inputs(disc, rng) for _ in range(n_post)]
     if moment != "fresh" and pre_inputs:
         post_inputs.append(pre_inputs[-1])  # an input already seen (cache hit path)
+    extra = near_inputs(disc, done, seen_inputs)
+    out.info["near_inputs"] = len(extra)
+    post_inputs = extra + post_inputs  # (first: while the caches still hold what the life left in them)
     first = True
-    for x in post_inputs:
+    out.info["near_hits"] = 0
+    for ix, x in enumerate(post_inputs):
         before = OBS.discipline_view(disc) if first else None
+        n_ref_before = ref.execution_statistics.n_executions
         rc, mc = _exec_view(copy, x)
         if first:
             after = OBS.discipline_view(disc)
@@ -245,6 +382,8 @@ def run_discipline_case(case: dict[str, Any], tmp: Path) -> Outcome:
             if dd:
                 out.fail("copy-affects-original", "executing the copy changed the original: " + "; ".join(dd[:3]))
         ro, mo = _exec_view(ref, x)
+        if ix < len(extra) and ro[0] == "out" and ref.execution_statistics.n_executions == n_ref_before:
+            out.info["near_hits"] += 1  # (histogram only: the reference answered from its cache)
         if ro != rc:
             xs = {k: np.asarray(v).tolist() for k, v in x.items()}
             if ro[0] == "exc" or rc[0] == "exc":
